@@ -3,6 +3,7 @@ package verifsim
 import (
 	"context"
 	"fmt"
+	"google.golang.org/protobuf/proto"
 	"math/rand"
 	"sort"
 	"strings"
@@ -42,6 +43,7 @@ type elecOp struct {
 	AllowMiss bool
 	ViaServer bool
 	Title     string
+	Pre       int // delete through the model: 0 no precondition of the caller's, 1 / 2 a passing WithExpectedCheck after / before the other options
 }
 
 func (o elecOp) String() string {
@@ -109,7 +111,15 @@ func (e *elecWorld) apply(o elecOp) elecRes {
 		if o.ViaServer {
 			_, err = e.srv.DeleteMode(ctx, &electricpb.DeleteModeRequest{Id: o.ID, AllowMissing: o.AllowMiss})
 		} else {
-			err = e.m.DeleteMode(o.ID, resource.WithAllowMissing(o.AllowMiss))
+			dopts := []resource.WriteOption{resource.WithAllowMissing(o.AllowMiss)}
+			// a caller's own (passing) preconditions must not weaken the model's rules
+			switch o.Pre {
+			case 1:
+				dopts = append(dopts, resource.WithExpectedCheck(func(proto.Message) error { return nil }))
+			case 2:
+				dopts = append([]resource.WriteOption{resource.WithExpectedCheck(func(proto.Message) error { return nil })}, dopts...)
+			}
+			err = e.m.DeleteMode(o.ID, dopts...)
 		}
 	case "set":
 		err = e.m.SetActiveMode(&traits.ElectricMode{Id: o.ID, Title: "set"})
@@ -191,7 +201,7 @@ func elecGenOp(t *Tape, ids []string, n *int) elecOp {
 			o.HasMask, o.Mask = true, []string{"title", "normal"}
 		}
 	case 5, 6:
-		o.Kind, o.ID, o.AllowMiss = "delete", id, t.Flag(1, 2)
+		o.Kind, o.ID, o.AllowMiss, o.Pre = "delete", id, t.Flag(1, 2), t.Choose(3)
 	case 7:
 		o.Kind, o.ID, o.ViaServer = "set", id, false
 	case 8, 9:
